@@ -26,6 +26,9 @@ func (m *Machine) lookupIntrinsic(fn *ssa.Function) intrinsic {
 	if mk, ok := fnIntrinsics[name]; ok {
 		return mk(fn)
 	}
+	if h, ok := timeIntrinsics[name]; ok {
+		return h
+	}
 	// generic instantiations: strip type args
 	if i := strings.Index(name, "["); i > 0 {
 		base := name[:i]
@@ -555,6 +558,29 @@ func builtinIntrinsics() map[string]intrinsic {
 		m.setCell(&(*a[0].(*Value)).(Struct)[0], a[1])
 		return nil
 	}
+
+	// sort.Slice / SliceStable: insertion sort calling the real less (forks on symbolic comparisons)
+	sortSlice := func(m *Machine, caller *frame, a []Value) Value {
+		sl, ok := a[0].(Iface).v.(Slice)
+		if !ok {
+			m.unsupported("sort.Slice on non-slice")
+		}
+		less := a[1]
+		for i := 1; i < len(sl); i++ {
+			for j := i; j > 0; j-- {
+				r := m.call(caller, less, []Value{m.f.Const(64, uint64(j)), m.f.Const(64, uint64(j-1))}).(*Term)
+				if !m.branchT(r) {
+					break
+				}
+				x, y := copyVal(sl[j]), copyVal(sl[j-1])
+				m.storeInto(&sl[j], y)
+				m.storeInto(&sl[j-1], x)
+			}
+		}
+		return nil
+	}
+	I["sort.Slice"] = sortSlice
+	I["sort.SliceStable"] = sortSlice
 
 	// errors
 	I["errors.Is"] = func(m *Machine, caller *frame, a []Value) Value { return m.f.Bool(m.errorsIs(caller, a[0].(Iface), a[1].(Iface), 0)) }
